@@ -45,7 +45,13 @@ def corpus(seed, n):
 
 
 def corpus_hashes(seed, n):
-    return [hash(build(pg)) for pg in corpus(seed, n)]
+    out = []
+    for pg in corpus(seed, n):
+        try:
+            out.append(hash(build(pg)))
+        except Exception as e:  # noqa: BLE001
+            out.append(f"raised:{type(e).__name__}:{e}"[:160])
+    return out
 
 
 def gen_cases(ctx):
@@ -146,6 +152,9 @@ def _process(ctx, case):
     there = json.loads(r.stdout.strip().splitlines()[-1])
     pgs = corpus(case["corpus_seed"], case["n"])
     for i, (a, b, pg) in enumerate(zip(here, there, pgs)):
+        if isinstance(a, str) or isinstance(b, str):
+            ctx.violate(f"C03/hash-raises:{str(a if isinstance(a, str) else b).split(':')[1]}/{pg['cls']}/process-corpus", f"hash() of corpus graph {i}: {a if isinstance(a, str) else b}", dict(case, index=i))
+            continue
         if not pg["atoms"]:
             continue
         ctx.case(("process", case["hashseed"], i), True)
